@@ -112,6 +112,10 @@ def gen_case(rng, tier):
                             'pacing': mixgen.draw_pacing(rng), 'source': rng.choice(SOURCES),
                             'handler_delay': mixgen.draw_wait(rng)}
             spec['n0'], spec['policy'] = credit(count)
+            if rng.random() < 0.2:
+                # the library's own CollectorSubscriber (AwaitableRSocket) as the granting application
+                spec['requester'] = 'collector'
+                spec['n0'] = rng.choice([1, 2, 3, 5, max(1, count), MAXN])
             if model == 'channel':
                 ucount = rng.choice([0, 1, 2, 5, 13, rng.randrange(0, 51)])
                 spec['up'] = {'elems': elems(ucount), 'terminal': rng.choice(['complete', 'complete', 'flag']),
@@ -179,6 +183,30 @@ def run_case(gen, idx, rng, tier):
                         first = f.get('n')
                     elif f['type'] == 'REQUEST_N':
                         sent_n.append(f.get('n'))
+            if sub.requests is None:
+                # CollectorSubscriber(limit_rate=n0): grants n0 again each time n0 elements (not flagged complete) arrived
+                got_n = 0
+                cont = False
+                for e in world.events:
+                    if e['kind'] == 'wire' and e['dir'] == 'recv' and e['ep'] == ep and e['f'].get('sid') == sid \
+                            and e['f']['type'] == 'PAYLOAD':
+                        was = cont
+                        cont = bool(e['f'].get('follows'))
+                        if not was and e['f'].get('next') and not cont and not e['f'].get('complete'):
+                            got_n += 1
+                        elif not was and e['f'].get('next') and cont:
+                            got_n += 1 if not _run_ends_complete(world, e, ep, sid) else 0
+                expected = [n0] * (got_n // n0) if n0 < MAXN else []
+                st['request_n_values_compared'] += len(expected) + 1
+                if first is not None and first != n0:
+                    wit.append({'clause': 'initial-request-n-differs',
+                                'detail': {'iid': iid, 'stream': sid, 'application': n0, 'wire': first}})
+                if sent_n != expected:
+                    wit.append({'clause': 'request-n-values-differ',
+                                'detail': {'iid': iid, 'stream': sid, 'endpoint': ep, 'collector_limit_rate': n0,
+                                           'elements_received': got_n, 'expected_request_n': expected[:12],
+                                           'wire_request_n': sent_n[:12]}})
+                continue
             st['request_n_values_compared'] += len(sub.requests) + (1 if n0 is not None else 0)
             if n0 is not None and first is not None and first != n0:
                 wit.append({'clause': 'initial-request-n-differs',
@@ -217,6 +245,15 @@ def run_case(gen, idx, rng, tier):
             ws.append(w)
     return {'evals': 1, 'nt_keys': [short_hash(desc)] if nontrivial else [], 'sigs': [world.signature()],
             'deciding': st, 'counts': ev, 'witnesses': ws, 'sample': desc}
+
+
+def _run_ends_complete(world, first_event, ep, sid):
+    """Whether the fragment run starting at first_event ends with the complete flag."""
+    for e in world.events[first_event['i'] + 1:]:
+        if e['kind'] == 'wire' and e['dir'] == 'recv' and e['ep'] == ep and e['f'].get('sid') == sid \
+                and e['f']['type'] == 'PAYLOAD' and not e['f'].get('follows'):
+            return bool(e['f'].get('complete'))
+    return False
 
 
 def classify(w):
